@@ -267,6 +267,46 @@ Fixpoint exec (s : state) (tr : list event) : option state :=
   | e :: tr' => match step s e with Some s' => exec s' tr' | None => None end
   end.
 
+
+(* VARIANT reader program, not the code: the length is taken from a separate earlier
+   look-up of the key (stat), then the key is opened and exactly that many bytes are
+   read (io.ReadFull).  [VStat r u] remembers the current length of the entry;
+   [VSizedGet r u] opens the key NOW and returns the first n bytes of what it finds
+   (when the entry is shorter than n, ReadFull fails: the read is an error, not modelled). *)
+Inductive vevent := VE (e : event) | VStat (r : N) (u : string) | VSizedGet (r : N) (u : string).
+
+Definition vstep (vs : state * list (N * nat)) (ve : vevent) : option (state * list (N * nat)) :=
+  let s := fst vs in
+  match ve with
+  | VE e => match step s e with Some s' => Some (s', snd vs) | None => None end
+  | VStat r u =>
+      match getS (key u) (s_dir s) with
+      | Some i => match getN i (s_ino s) with
+                  | Some d => Some (s, putN r (List.length d) (snd vs))
+                  | None => None
+                  end
+      | None => None
+      end
+  | VSizedGet r u =>
+      match getN r (snd vs), getN r (s_r s), getS (key u) (s_dir s) with
+      | Some n, None, Some i =>
+          match getN i (s_ino s) with
+          | Some d => if (n <=? List.length d)%nat
+                      then Some (mk_state (s_dir s) (s_ino s) (s_w s)
+                                   (putN r (mk_r u (Some i) (RDone (Hit (firstn n d)))) (s_r s)), snd vs)
+                      else None
+          | None => None
+          end
+      | _, _, _ => None
+      end
+  end.
+
+Fixpoint vexec (vs : state * list (N * nat)) (tr : list vevent) : option (state * list (N * nat)) :=
+  match tr with
+  | [] => Some vs
+  | e :: tr' => match vstep vs e with Some vs' => vexec vs' tr' | None => None end
+  end.
+
 End Sem.
 
 (* ---------- Part 2: cases of the correspondence check ---------- *)
